@@ -785,6 +785,30 @@ impl Stringify for Value {
                 double_brace_location,
                 binding_map_keys: _,
             } => {
+                // a binding that is nothing but white space would be printed as plain white
+                // space, which the parser drops between tags: it stays a binding
+                fn literal_text(expr: &Expression, out: &mut String) -> bool {
+                    match expr {
+                        Expression::LitStr { value, .. } => {
+                            out.push_str(value);
+                            true
+                        }
+                        Expression::Plus { left, right, .. } => {
+                            literal_text(left, out) && literal_text(right, out)
+                        }
+                        _ => false,
+                    }
+                }
+                let mut text = String::new();
+                if literal_text(expression, &mut text)
+                    && !text.is_empty()
+                    && text.chars().all(|c| c == ' ' || ('\x09'..='\x0D').contains(&c))
+                {
+                    stringifier.write_token("{{", None, &double_brace_location.0)?;
+                    stringifier.write_str(&crate::escape::gen_expr_lit_str(&text))?;
+                    stringifier.write_token("}}", None, &double_brace_location.1)?;
+                    return Ok(());
+                }
                 fn split_expression<'s, W: FmtWrite>(
                     expr: &Expression,
                     stringifier: &mut Stringifier<'s, W>,
